@@ -784,6 +784,172 @@ def run_c07(ctx):
     return res
 
 
+def monitor_lib(sc, g):
+    """C16 / C09 / C17(third sentence) evaluated on the real library: returns (owner, signature, detail)"""
+    out = []
+    rs = g.get("res", [])
+    removed = {}        # (lib, kb) -> set of removed original names (by lib/kb-level RemoveRuleEntry)
+    active_snap = {}    # (lib, kb) -> {name: snapshot} of active rules as last seen
+    inst_kb = {}
+    inst_removed = {}
+    for i, (o, r) in enumerate(zip(sc["ops"], rs)):
+        kind = o.get("op")
+        key = (o.get("lib"), o.get("kb"))
+        rules = r.get("rules") if isinstance(r, dict) else None
+        if rules is not None and kind in ("build", "remove", "info", "load") and not o.get("inst"):
+            if kind == "load":
+                key = (o.get("lib"), r.get("name"))
+            names = [x[1] for x in rules if not x[4]]
+            if len(names) != len(set(names)):
+                out.append(("C16", "two-active-rules-one-name", "op %d: %s" % (i, names)))
+            for x in rules:
+                if x[0] != x[1]:
+                    out.append(("C16", "key-differs-from-name", "op %d: key %s name %s" % (i, x[0], x[1])))
+            snaps = {x[1]: x[5] for x in rules if not x[4]}
+            if kind == "build" and o.get("expect") in ("dup", "syntax"):
+                if r.get("ok"):
+                    out.append(("C16" if o.get("expect") == "dup" else "C17", "rejected-text-accepted", "op %d: %s text returned nil" % (i, o.get("expect"))))
+                before = active_snap.get(key, {})
+                for n, sn in before.items():
+                    if snaps.get(n) != sn:
+                        out.append(("C16", "existing-rule-changed-by-rejected-build", "op %d: rule %s" % (i, n)))
+            if kind == "build" and not o.get("expect") and not r.get("ok"):
+                out.append(("C17", "valid-text-rejected", "op %d" % i))
+            active_snap[key] = snaps
+        if kind == "remove" and not o.get("inst"):
+            removed.setdefault(key, set()).add(o["rule"])
+        if kind == "build" and r.get("ok") and o.get("rules"):
+            for rr in o["rules"]:
+                removed.get(key, set()).discard(rr["name"])
+        if kind == "load" and r.get("ok"):
+            pass
+        if kind == "inst":
+            if not r.get("ok"):
+                known = key in active_snap
+                if known:
+                    out.append(("C09", "instance-creation-failed", "op %d: NewKnowledgeBaseInstance failed for %s" % (i, key)))
+            else:
+                inst_kb[o["as"]] = key
+                inst_removed[o["as"]] = set(x[1] for x in r.get("rules", []) if x[4]) | set(x[0] for x in r.get("rules", []) if x[4])
+                # what the instance shows must be what the blueprint shows
+                bp = active_snap.get(key)
+                got = {x[1]: x[5] for x in r.get("rules", []) if not x[4]}
+                if bp is not None and bp != got:
+                    out.append(("C09", "instance-differs-from-blueprint", "op %d: %s vs %s" % (i, sorted(got), sorted(bp))))
+        if kind == "remove" and o.get("inst"):
+            inst_removed.setdefault(o["inst"], set()).add(o["rule"])
+        if kind in ("fetch", "exec") and isinstance(r, dict):
+            names = [x[0] for x in (r.get("rules") or [])] + [e[2] for e in (r.get("trace") or []) if e[0] in ("e", "x")]
+            for n in names:
+                if n.startswith("Deleted_"):
+                    out.append(("C16", "removed-rule-matched-or-fired", "op %d: %s" % (i, n)))
+            gone = inst_removed.get(o.get("inst"), set())
+            for n in names:
+                if n in gone and o.get("op") and n in [x for x in gone]:
+                    # a name removed on this instance may not show up (the tomb-stone carries another name)
+                    out.append(("C16", "rule-removed-on-instance-still-active", "op %d: %s" % (i, n)))
+        if kind == "ptrcheck" and r.get("shared"):
+            out.append(("C09", "shared-mutable-state", "op %d: %s" % (i, r["shared"][:3])))
+    return out
+
+
+def add_isolation_probes(sc, rng):
+    """C09: pointer-graph check over blueprint and instances; blueprint must look the same after instances were used"""
+    insts = [o["as"] for o in sc["ops"] if o.get("op") == "inst" and o.get("lib") == "L"]
+    kbs = sorted(set(o["kb"] for o in sc["ops"] if o.get("op") == "inst" and o.get("lib") == "L"))
+    for kb in kbs:
+        mine = [o["as"] for o in sc["ops"] if o.get("op") == "inst" and o.get("lib") == "L" and o.get("kb") == kb]
+        sc["ops"].append({"op": "ptrcheck", "lib": "L", "kb": kb, "insts": mine})
+    return sc
+
+
+def run_lib(ctx, tag):
+    import gen_lib
+    res = Result()
+    res.rule = ("operation histories on a knowledge library with one or two knowledge bases: build, duplicate-name build (alone, next to a new rule, inside one "
+                "resource), syntactically broken text, RemoveRuleEntry on library / knowledge base / instance, re-build of a removed name, instantiate, "
+                "Execute / FetchMatchingRules on instances, store, load (overwrite or not, into the same or another library), each history closed by "
+                "instantiating and running every knowledge base and a reflective pointer-graph comparison of blueprint and instances; real library vs model "
+                "after every step; monitors: unique active names, key = name, removed rules never match or fire, rejected texts leave existing rules "
+                "unchanged, instance creation always succeeds, instance = blueprint, no shared objects; non-trivial = history contains a removal or a rejected build")
+    rng = Rng(ctx.seed * 15485863 + hash_tag(tag))
+    n = ctx.n(600, 10000)
+    scs = corpus(ctx.prop) + [add_isolation_probes(gen_lib.scenario(rng.fork(), "%s-%d-%d" % (tag, ctx.seed, i), maxlen=ctx.n(10, 30)), rng) for i in range(n)]
+    for i in range(0, len(scs), 2000):
+        out = pl.correspond(scs[i:i + 2000], jobs=ctx.jobs)
+        for sc, g, l, status, detail in out:
+            res.evaluations += 1
+            if status == "unmodelled":
+                res.unmodelled += 1
+                continue
+            if status == "crash":
+                res.corr_details.append({"id": sc["id"], "status": status, "detail": detail[:500], "scenario": sc})
+                res.corr_broken = True
+                continue
+            res.corr_compared += 1
+            if status == "mismatch":
+                res.corr_details.append({"id": sc["id"], "status": status, "detail": detail[:500], "scenario": sc})
+                res.corr_broken = True
+            kinds = [o.get("op") + (":" + o["expect"] if o.get("expect") else "") for o in sc["ops"]]
+            for k in set(kinds):
+                res.count("op:" + k, kinds.count(k))
+            key = json.dumps([(o.get("op"), o.get("text"), o.get("rule"), o.get("kb")) for o in sc["ops"]])
+            if any(k in ("remove", "build:dup", "build:syntax") for k in kinds) and key not in res._distinct:
+                res._distinct.add(key)
+                res.distinct_nontrivial += 1
+                if len(res.samples) < 3:
+                    res.samples.append({"id": sc["id"], "ops": kinds})
+            for owner, sig, det in monitor_lib(sc, g):
+                if owner == ctx.prop or (ctx.prop == "C16" and owner == "C17") or (ctx.prop == "C17" and owner in ("C16", "C09")):
+                    res.violations.append({"signature": "monitor:" + sig, "detail": det, "scenario": sc})
+            for i2, kind, det in pl.compare_spec(sc, g, l):
+                res.violations.append({"signature": "oracle:" + kind, "detail": det, "scenario": sc, "op_index": i2})
+    return res
+
+
+def run_c09(ctx):
+    res = run_lib(ctx, "C09")
+    # concurrent creation + execution, compared with the sequential meaning
+    import gen_lib
+    rng = Rng(ctx.seed * 32452843 + 9)
+    scs = []
+    for i in range(ctx.n(40, 400)):
+        r = rng.fork()
+        names = gen_lib.NAMES[:r.range(1, 4)]
+        rules = [gen_lib.simple_rule(r, x) for x in names]
+        for j, rr in enumerate(rules):
+            rr["sal"] = str(10 - j)          # distinct saliences: the outcome does not depend on map order
+        from grl import Printer
+        ops = [{"op": "build", "lib": "L", "kb": "K", "wm": False, "text": Printer().doc(rules), "rules": rules, "ftext": []},
+               {"op": "concurrent", "lib": "L", "kb": "K", "max": 6, "factsList": [gen_lib.facts(r) for _ in range(r.choice([2, 4, 8, 16]))]},
+               {"op": "info", "lib": "L", "kb": "K"}]
+        scs.append({"id": "conc-%d-%d" % (ctx.seed, i), "profile": "stable", "ops": ops})
+    binary = None
+    if ctx.tier == "thorough":
+        try:
+            binary = pl.build_harness(race=True)
+        except Exception as e:  # pragma: no cover
+            res.distribution["race-build"] = "failed: %s" % str(e)[:200]
+    for procs in ([1, 2, 16] if ctx.tier == "thorough" else [16]):
+        os.environ["GOMAXPROCS"] = str(procs)
+        go = pl.run_go(scs, jobs=4, binary=binary)
+        lean = pl.run_lean(scs, jobs=ctx.jobs)
+        for sc, g, l in zip(scs, go, lean):
+            res.evaluations += 1
+            res.count("concurrent-runs(GOMAXPROCS=%d)" % procs)
+            st, d = pl.compare(sc, g, l)
+            if st == "crash" and "DATA RACE" in json.dumps(g):
+                res.violations.append({"signature": "race-detector", "detail": json.dumps(g)[:600], "scenario": sc})
+            elif st in ("mismatch", "crash"):
+                res.corr_details.append({"id": sc["id"], "status": st, "detail": d[:500], "scenario": sc})
+                res.corr_broken = True
+                res.violations.append({"signature": "concurrent-differs-from-sequential", "detail": d[:400], "scenario": sc})
+            else:
+                res.corr_compared += 1
+    os.environ.pop("GOMAXPROCS", None)
+    return res
+
+
 PROPS = {}
 
 
@@ -800,6 +966,8 @@ prop("C06", run=lambda ctx: run_engine_generic(ctx))
 prop("C15", run=run_c15)
 prop("C19", run=run_c19)
 prop("C07", run=run_c07)
+prop("C16", run=lambda ctx: run_lib(ctx, "C16"))
+prop("C09", run=run_c09)
 prop("C10", run=lambda ctx: run_engine_generic(ctx, mix=(("stable", 5), ("wild", 4), ("cancel", 1))))
 prop("C11", run=lambda ctx: run_engine_generic(ctx))
 prop("C13", run=lambda ctx: run_engine_generic(ctx))
